@@ -195,6 +195,18 @@ class Bundle:
         torch.save({k: m.state_dict() for k, m in self.parts().items()}, buf)
         return buf.getvalue()
 
+    def recycle(self):
+        """every fold reducer (stand-alone monitors' and the trainers' monitors') is cleared KEEPING its shaped
+        storage: the instance has run on other data and was reset for reuse, its recorders still fit a checkpoint"""
+        from inferno.observe import FoldReducer
+        n = 0
+        for top in self.parts().values():
+            for sub in top.modules():
+                if isinstance(sub, FoldReducer):
+                    sub.clear(keepshape=True)
+                    n += 1
+        return n
+
     @staticmethod
     def deserialise(blob: bytes):
         return torch.load(io.BytesIO(blob), weights_only=False)
